@@ -91,7 +91,20 @@ func obsCase4(e error, unknown []string) SX {
 		L(Sym("dtree"), on(d1, okd, treeSX)),
 		L(Sym("denc"), on(d1, okd, encSX)),
 		L(Sym("dacc"), on(d1, okd, accSX)),
+		// real-only observations for the direct oracle: the extension of the type mark of every layer
+		L(Sym("real-exts0"), optSX(func() SX { return extsSX(e) })),
+		L(Sym("real-uexts"), on(u1, ok1, extsSX)),
 	)
+}
+
+// extsSX: the extension part of the type mark of every visible layer (what a WithDomain layer or a
+// type with an ErrorKeyMarker adds to its family name).
+func extsSX(e error) SX {
+	var out []SX
+	for _, n := range nodesOfErr(e, nil) {
+		out = append(out, Str(errbase.GetTypeMark(n).Extension))
+	}
+	return L(out...)
 }
 
 func subsets(fams []string, rng *RNG, all bool, max int) [][]string {
@@ -224,6 +237,12 @@ func oracleC04(res *Result, c *Case) {
 	res.OracleEvals["C04.reencode_exact_2nd"]++
 	if field(r, "u2enc").String() != field(r, "uenc").String() {
 		res.fail(c, "C04.reencode_exact_2nd", "second unknowing intermediary changes the message", hiddenConsequence("C04:reencode2:", field(r, "uenc"), field(r, "u2enc")))
+	}
+	// (2b) the unknowing process sees the same mark extension on every layer (an unknown layer keeps
+	// the extension it was encoded with)
+	res.OracleEvals["C04.extension_at_unknowing"]++
+	if a, b := field(r, "real-exts0").String(), field(r, "real-uexts").String(); a != b {
+		res.fail(c, "C04.extension_at_unknowing", fmt.Sprintf("mark extensions per layer: origin %s unknowing %s", a, b), "C04:extension")
 	}
 	// (3) a later knowing process reconstructs the same error as if it had received it directly
 	res.OracleEvals["C04.later_knowing"]++
